@@ -25,9 +25,17 @@ def _circuit_size_by_operations(operations):
     )
 
 
+def _innermost_gate(gate):
+    """Strip controlled / dagger / power / exponential wrappers."""
+    while hasattr(gate, "wrapped_gate"):
+        gate = gate.wrapped_gate
+    return gate
+
+
 def _operation_uses_custom_gate(operation):
-    return isinstance(operation.gate, _gates.MatrixFactoryGate) and isinstance(
-        operation.gate.matrix_factory, _gates.CustomGateMatrixFactory
+    gate = _innermost_gate(operation.gate)
+    return isinstance(gate, _gates.MatrixFactoryGate) and isinstance(
+        gate.matrix_factory, _gates.CustomGateMatrixFactory
     )
 
 
@@ -98,7 +106,7 @@ class Circuit:
 
     def collect_custom_gate_definitions(self) -> Iterable[_gates.CustomGateDefinition]:
         custom_gate_definitions = (
-            operation.gate.matrix_factory.gate_definition
+            _innermost_gate(operation.gate).matrix_factory.gate_definition
             for operation in self.operations
             if _operation_uses_custom_gate(operation)
         )
